@@ -33,8 +33,14 @@ type segment struct {
 	start int
 }
 
+// caseList: the seed-independent shape of the case list. The "metrics" pass (quick tier only) is a sixth of the
+// quick list, executed by children that run with go-ethereum metrics enabled, as a node started with --metrics does.
 func caseList(quick bool) ([]segment, int) {
+	mini := os.Getenv("VERIF_C01_PASS") == "metrics"
 	q := func(a, b int) int {
+		if mini {
+			return max(a/6, 4)
+		}
 		if quick {
 			return a
 		}
@@ -50,7 +56,7 @@ func caseList(quick bool) ([]segment, int) {
 			segment{Kind: "offerresp", Net: n, Count: q(1500, 30000)},
 			segment{Kind: "offered", Net: n, Count: q(2000, 40000)},
 			segment{Kind: "validate", Net: n, Count: q(7000, 200000)},
-			segment{Kind: "get", Net: n, Count: 256*len(keyLens) + q(1000, 30000)},
+			segment{Kind: "get", Net: n, Count: q(256*len(keyLens), 256*len(keyLens)) + q(1000, 30000)},
 			segment{Kind: "sequence", Net: n, Count: q(3000, 60000)},
 			segment{Kind: "wire-talkreq", Net: n, Count: q(1600, 40000)},
 			segment{Kind: "wire-resp-pong", Net: n, Count: q(200, 4000)},
@@ -61,8 +67,11 @@ func caseList(quick bool) ([]segment, int) {
 			segment{Kind: "findcontent-stored", Net: n, Count: q(48, 480)},
 		)
 	}
+	segs = append(segs, segment{Kind: "startup", Net: "history", Count: q(30, 90)}, segment{Kind: "startup", Net: "beacon", Count: q(10, 30)})
 	segs = append(segs, segment{Kind: "wire-utp", Net: "history", Count: q(3000, 80000)})
-	segs = append(segs, segment{Kind: "slow-content", Net: "history", Count: q(6, 48)})
+	if !mini {
+		segs = append(segs, segment{Kind: "slow-content", Net: "history", Count: q(6, 48)})
+	}
 	total := 0
 	for i := range segs {
 		segs[i].start = total
@@ -105,15 +114,75 @@ func main() {
 func parentRun(r *lib.Run) {
 	segs, total := caseList(r.Quick() || os.Getenv("VERIF_C01_RACE") == "1")
 	r.SetRule("cases = seed-determined list over {TALKREQ on each portal sub-protocol (direct handler call and over the in-memory discv5 link), the four TALKRESP kinds (direct response processors and over the wire as answers to the node's own requests), " +
-		"uTP stream bodies after a genuine ACCEPT, raw uTP packets on the utp channel, (content key, content) through ValidateContent and, when accepted, ContentStorage.Put, ContentStorage.Get for peer-chosen keys, and stateful sequences that interleave store / look up / FINDCONTENT / OFFER / offered-stream steps around the genuine vectors and their numeric neighbours (followed by a probe that the network's content loop still consumes its queue)} x {history, beacon, state nodes with real storage adapters and validators}; " +
+		"uTP stream bodies after a genuine ACCEPT, raw uTP packets on the utp channel, (content key, content) through ValidateContent and, when accepted, ContentStorage.Put, ContentStorage.Get for peer-chosen keys, well-formed requests from peers with established sessions sent back to back while a fresh node starts and stops, and stateful sequences that interleave store / look up / FINDCONTENT / OFFER / offered-stream steps around the genuine vectors and their numeric neighbours (followed by a probe that the network's content loop still consumes its queue)} x {history, beacon, state nodes with real storage adapters and validators}; " +
 		"inputs: valid messages, structure-aware mutations, boundary lengths 0/1/2, unknown codes/selectors, the full key matrix (type byte 0x00..0xff x lengths 0,1,2,8,9,10,32,33,34,41,42,64,65,2048), mutated genuine vectors. " +
 		"distinct_nontrivial = distinct (entry point, network, input) that reached the handler / processor / validator / adapter")
 	r.Assume("a crash is a Go panic or fatal error of the process while handling a logged case, or a recovered panic on the calling goroutine; a wedge is a handling call that has not returned after 45 s (the longest legitimate path is a 15 s uTP dial)")
 	r.Assume("reply well-formedness is decided with the real message decoders (their canonicality is C14's subject)")
 	outDir := filepath.Join(lib.StateDir(), "out", "C01")
 	_ = os.MkdirAll(outDir, 0o755)
-	next, restarts, crashes := 0, 0, 0
+	restarts, crashes := 0, 0
 	distinct := map[uint64]struct{}{}
+	passes := []string{"main"}
+	if r.Quick() && os.Getenv("VERIF_C01_RACE") != "1" && !lib.MetricsWanted(r.Tier) {
+		passes = append(passes, "metrics")
+	}
+	next, mainNext, mainTotal := 0, 0, total
+	for _, pass := range passes {
+		var penv []string
+		if pass == "metrics" {
+			os.Setenv("VERIF_C01_PASS", "metrics")
+			penv = []string{"VERIF_C01_PASS=metrics", "VERIF_METRICS=1"}
+			segs, total = caseList(true)
+			r.Count("metrics_pass_cases", total)
+		}
+		next = 0
+		rs, cs := superviseList(r, pass, segs, total, penv, outDir, distinct, &next)
+		restarts += rs
+		crashes += cs
+		if pass == "main" {
+			mainNext = next
+		} else {
+			os.Unsetenv("VERIF_C01_PASS")
+			if next < total && int(r.Counter("cases_not_executed_after_crash_storm")) == 0 {
+				r.FloorMiss("metrics pass: only %d of %d cases executed", next, total)
+			}
+			segs, total = caseList(r.Quick() || os.Getenv("VERIF_C01_RACE") == "1")
+		}
+	}
+	next, total = mainNext, mainTotal
+	for h := range distinct {
+		var b [8]byte
+		binary.LittleEndian.PutUint64(b[:], h)
+		r.DistinctBytes(b[:])
+	}
+	if reps := lib.ParseRaceLogs(filepath.Join(outDir, "race-"+r.Tier)); len(reps) > 0 {
+		// a data race is not a crash: listed for information (C05/C07/C09/C10/C16 judge races on their own state)
+		pairs := map[string]int{}
+		for _, rep := range reps {
+			pairs[rep.PairSignature()]++
+		}
+		r.Extra("race_reports_info", pairs)
+		r.Count("race_reports_info", len(reps))
+	}
+	r.Count("child_restarts", restarts)
+	r.Count("process_crashes", crashes)
+	r.Extra("case_list_length", total)
+	var segDesc []string
+	for _, s := range segs {
+		segDesc = append(segDesc, fmt.Sprintf("%s/%s:%d", s.Kind, s.Net, s.Count))
+	}
+	r.Extra("segments", segDesc)
+	if int(r.Counter("cases_not_executed_after_crash_storm")) == 0 && next < total {
+		r.FloorMiss("only %d of %d cases executed", next, total)
+	}
+}
+
+// superviseList runs one pass over a case list in child processes, restarting after the case that killed a child.
+func superviseList(r *lib.Run, pass string, segs []segment, total int, penv []string, outDir string, distinct map[uint64]struct{}, nextp *int) (int, int) {
+	restarts, crashes := 0, 0
+	next := *nextp
+	defer func() { *nextp = next }()
 	maxRestarts := 80
 	wedges := map[string]int{} // per segment: after three wedges the rest of that segment is skipped (45 s each)
 	for next < total {
@@ -122,14 +191,14 @@ func parentRun(r *lib.Run) {
 			r.Count("cases_not_executed_after_crash_storm", total-next)
 			break
 		}
-		prog := filepath.Join(outDir, fmt.Sprintf("progress-%s-%d.log", r.Tier, restarts))
-		res := filepath.Join(outDir, fmt.Sprintf("result-%s-%d", r.Tier, restarts))
-		errf := filepath.Join(outDir, fmt.Sprintf("child-%s-%d.stderr", r.Tier, restarts))
+		prog := filepath.Join(outDir, fmt.Sprintf("progress-%s-%s-%d.log", r.Tier, pass, restarts))
+		res := filepath.Join(outDir, fmt.Sprintf("result-%s-%s-%d", r.Tier, pass, restarts))
+		errf := filepath.Join(outDir, fmt.Sprintf("child-%s-%s-%d.stderr", r.Tier, pass, restarts))
 		ef, _ := os.Create(errf)
 		cmd := exec.Command(os.Args[0], r.Tier, "--exec", strconv.Itoa(next), strconv.Itoa(total), prog, res)
 		cmd.Stdout = ef
 		cmd.Stderr = ef
-		cmd.Env = append(os.Environ(), "GOTRACEBACK=all", fmt.Sprintf("VERIF_SEED=%d", r.Seed),
+		cmd.Env = append(append(os.Environ(), penv...), "GOTRACEBACK=all", fmt.Sprintf("VERIF_SEED=%d", r.Seed),
 			// only relevant for the -race build of the thorough tier (checkptr is on there): reports are logged, never fatal
 			"GORACE=halt_on_error=0 exitcode=0 log_path="+filepath.Join(outDir, "race-"+r.Tier))
 		err := cmd.Run()
@@ -140,7 +209,7 @@ func parentRun(r *lib.Run) {
 				code = ee.ExitCode()
 			} else {
 				r.FloorMiss("cannot run child: %v", err)
-				return
+				return restarts, crashes
 			}
 		}
 		// merge what the child flushed
@@ -223,31 +292,7 @@ func parentRun(r *lib.Run) {
 			}
 		}
 	}
-	for h := range distinct {
-		var b [8]byte
-		binary.LittleEndian.PutUint64(b[:], h)
-		r.DistinctBytes(b[:])
-	}
-	if reps := lib.ParseRaceLogs(filepath.Join(outDir, "race-"+r.Tier)); len(reps) > 0 {
-		// a data race is not a crash: listed for information (C05/C07/C09/C10/C16 judge races on their own state)
-		pairs := map[string]int{}
-		for _, rep := range reps {
-			pairs[rep.PairSignature()]++
-		}
-		r.Extra("race_reports_info", pairs)
-		r.Count("race_reports_info", len(reps))
-	}
-	r.Count("child_restarts", restarts)
-	r.Count("process_crashes", crashes)
-	r.Extra("case_list_length", total)
-	var segDesc []string
-	for _, s := range segs {
-		segDesc = append(segDesc, fmt.Sprintf("%s/%s:%d", s.Kind, s.Net, s.Count))
-	}
-	r.Extra("segments", segDesc)
-	if int(r.Counter("cases_not_executed_after_crash_storm")) == 0 && next < total {
-		r.FloorMiss("only %d of %d cases executed", next, total)
-	}
+	return restarts, crashes
 }
 
 func tailStr(s string, n int) string {
